@@ -1,5 +1,5 @@
 (** Conv/Targets.v — the universe of library target types and their [FromMeta] implementers. *)
-From DarlingModel Require Export Conv.Scalars Conv.SynValues Conv.Wrappers Conv.Maps Conv.Probe.
+From DarlingModel Require Export Conv.Scalars Conv.SynValues Conv.Wrappers Conv.Maps Conv.Probe Conv.SynProofs.
 Local Open Scope string_scope.
 
 Inductive target : Type :=
@@ -14,6 +14,7 @@ Inductive target : Type :=
 | TLit (want : string)                         (* Lit ("" = any), LitInt "int", ... *)
 | TVecLit (want : string)
 | TNumArr (t : ity)
+| THelper (parse : bool)                       (* util::parse_expr::{preserve,parse}_str_literal *)
 (* wrappers *)
 | TOption (t : target) | TPtr (t : target) | TResult (t : target) | TResultMeta (t : target)
 | TOverride (t : target) | TSpanned (t : target) | TWithOriginal (t : target) | TFlag
@@ -52,6 +53,9 @@ Section FmOf.
     | TLit w => lit_fm w
     | TVecLit w => veclit_fm reparse_arr w
     | TNumArr t => numarr_fm reparse_arr t
+    | THelper b =>
+        mkFm None (Some (if b then parse_str_literal reparse else preserve_str_literal))
+             None None None None None None None None
     | TOption t => option_fm (fm_of t)
     | TPtr t => ptr_fm (fm_of t)
     | TResult t => result_fm (fm_of t)
